@@ -336,7 +336,7 @@ func c13Codec(p *Prog, r *Report, cl *types.Named, recv *ssa.Function) {
 			for _, ct := range dominatingConds(st.Block()) {
 				if ex, ok := ct.Cond.(*ssa.Extract); ok && ex.Index == 1 && ct.Truth {
 					if lk, ok := ex.Tuple.(*ssa.Lookup); ok {
-						if ld, ok := lk.X.(*ssa.UnOp); ok && ld.X == table {
+						if ld, ok := lk.X.(*ssa.UnOp); ok && sameGlobal(ld.X, table) {
 							lookup = lk
 						}
 					}
@@ -463,7 +463,7 @@ func c13Names(p *Prog, r *Report) {
 		if mu, ok := in.(*ssa.MapUpdate); ok {
 			if k, ok := constStr(mu.Key); ok && k == "COMPRESSION" {
 				for _, o := range origins(mu.Value) {
-					if ld, ok := o.(*ssa.UnOp); ok && ld.X == g {
+					if ld, ok := o.(*ssa.UnOp); ok && sameGlobal(ld.X, g) {
 						uses = true
 					}
 				}
